@@ -21,13 +21,15 @@ def canon(kind, v):
     if kind == "bool":
         return "true" if v else "false"
     if kind == "array":
-        return json.dumps(v)
+        return json.dumps(v, sort_keys=True)
     return str(v)
 
 
 LEAVES = [("int", 3), ("int", -7), ("str", "3"), ("str", "1.5"), ("str", "True"), ("str", "hello"), ("str", "with \"quote\" # not a comment"),
           ("str", "sep\u2028[x]"), ("str", "nel\u0085[y] z"), ("str", "first\n# second line looks like a comment\n[third]"), ("float", 1.5), ("float", 0.25), ("bool", True), ("bool", False),
-          ("array", [1, 2, 3]), ("array", ["a", "b"]), ("array", [])]
+          ("array", [1, 2, 3]), ("array", ["a", "b"]), ("array", []),
+          # arrays of tables: an array is a VALUE - the user's array replaces the default's as a whole
+          ("array", [{"a": 1}, {"b": "x"}]), ("array", [{"a": 2, "c": True}]), ("array", [{"b": "y"}, {"a": 1}, {"d": 4}])]
 KEYS = ["alpha", "beta", "gamma", "port"]
 
 
@@ -42,8 +44,22 @@ def toml_value(lf, multiline=False, raw=False):
             return '"""\n' + s.replace('"', '\\"') + '"""'       # a multi-line basic string (user files only)
         return json.dumps(s, ensure_ascii=not raw)            # one line; raw: non-ASCII characters written as themselves
     if k == "array":
-        return s
+        return toml_array(json.loads(s))
     return s
+
+
+def toml_array(v):
+    def el(x):
+        if isinstance(x, dict):
+            return "{ " + ", ".join("%s = %s" % (kk, el(vv)) for kk, vv in x.items()) + " }"
+        if isinstance(x, bool):
+            return "true" if x else "false"
+        if isinstance(x, str):
+            return json.dumps(x)
+        if isinstance(x, list):
+            return "[" + ", ".join(el(y) for y in x) + "]"
+        return str(x)
+    return "[" + ", ".join(el(x) for x in v) + "]"
 
 
 def inline(doc):
@@ -103,6 +119,8 @@ def unwrap(y):
         return str(y)
     if isinstance(y, list):
         return [unwrap(z) for z in y]
+    if isinstance(y, dict):
+        return {str(k): unwrap(z) for k, z in y.items()}
     return str(y)
 
 
